@@ -105,6 +105,8 @@ theorem wrap_call_order_src : wrap_call_order = "rw.WriteMsg,mw.recordQueryInfo,
 not put the request information back.  (`context_double_put_counterexample`: what a second `Put` does.) -/
 theorem ri_put_count_src : ri_put_count = "1" := by decide
 theorem ri_put_in_access_src : ri_put_in_access = "0" := by decide
+/-- (Since the C10 repair the access check has a global and a profile half; neither returns the object.) -/
+theorem ri_put_in_access_global_src : ri_put_in_access_global = "0" := by decide
 theorem fctx_put_count_src : fctx_put_count = "1" := by decide
 theorem cr_put_count_src : cr_put_count = "1" := by decide
 theorem qlog_buf_put_count_src : qlog_buf_put_count = "1" := by decide
